@@ -4,6 +4,7 @@ import (
 	"fmt"
 	"math"
 	"regexp"
+	"strconv"
 	Time "time"
 )
 
@@ -278,6 +279,8 @@ var (
 		Time.RFC1123,
 	}
 	matchDateTimeZone = regexp.MustCompile(`^(.*)(?:(Z)|([\+\-]\d{2}):(\d{2}))$`)
+	// matchDateExpandedYear matches the expanded year +-YYYYYY of 15.9.1.15.1.
+	matchDateExpandedYear = regexp.MustCompile(`^([\+\-]\d{6})((?:[\-T].*)?)$`)
 )
 
 // dateParse returns the epoch of the parsed date.
@@ -285,6 +288,23 @@ func dateParse(date string) float64 {
 	// YYYY-MM-DDTHH:mm:ss.sssZ
 	var time Time.Time
 	var err error
+
+	if match := matchDateExpandedYear.FindStringSubmatch(date); match != nil {
+		// Parse with a four-digit stand-in year that has the same leap-year
+		// status, then move the result to the year asked for.
+		year, _ := strconv.Atoi(match[1])
+		standIn := 2001
+		if year%4 == 0 && (year%100 != 0 || year%400 == 0) {
+			standIn = 2000
+		}
+		epoch := dateParse(strconv.Itoa(standIn) + match[2])
+		if math.IsNaN(epoch) || match[1] == "-000000" {
+			return math.NaN()
+		}
+		from := Time.Date(standIn, 1, 1, 0, 0, 0, 0, Time.UTC)
+		to := Time.Date(year, 1, 1, 0, 0, 0, 0, Time.UTC)
+		return epoch + float64(to.UnixMilli()-from.UnixMilli())
+	}
 
 	if match := matchDateTimeZone.FindStringSubmatch(date); match != nil {
 		if match[2] == "Z" {
